@@ -49,6 +49,19 @@ def check_case(rep, drv, case, rng, pairs=PAIRS):
                      dict(case.replay, kind='encode', enc=list(ENC_MODE[e])))
             continue
         encs[e] = ie[1]
+        if rng is not None:
+            # options a caller passes (codec-agnostic code hands the same options to every encoder) must not change
+            # what a canonical encoder writes
+            foreign = (e, rng.random() < 0.5, rng.choice([0, 1, 2, 3, 7, 999, 1000, 1001]))
+            if (foreign[1], foreign[2]) == codec.NOMINAL[e]:
+                foreign = (e, not foreign[1], 1)
+            ie2 = engine.corr_encode(rep, drv, case, foreign)
+            rep.count('foreign-options')
+            if ie2[0] != 'ok' or ie2[1] != ie[1]:
+                rep.fail('canonical-encoder-honours-caller-options',
+                         '%s encoder given defMode=%s maxChunkSize=%d wrote %s instead of %s' % (
+                             e.upper(), foreign[1], foreign[2], ie2[1].hex() if ie2[0] == 'ok' else ie2[1], ie[1].hex()),
+                         dict(case.replay, kind='encode', enc=list(foreign)))
     for e, d in pairs:
         if e not in encs:
             continue
